@@ -175,6 +175,10 @@ def munu_case(draw):
         k = draw(st.integers(0, 5))
         if k == 0:
             pts.append([draw(st.sampled_from([95.0, 275.0, 0.0, 5.0, 185.0])), draw(st.sampled_from([0.0, 90.0, -90.0, 45.0]))])
+        elif k == 1 and draw(st.booleans()):
+            # a pole of the stripe's own great circle (nu = +-90): RA 5 or 185, Dec = +-(90 - |inclination|)
+            inc = incl_of(stripe)
+            pts.append([draw(st.sampled_from([5.0, 185.0])), draw(st.sampled_from([1.0, -1.0])) * (90.0 - abs(inc))])
         else:
             pts.append([180.0 * (1 + draw(uf)), math.degrees(math.asin(draw(uf)))])
     mus = [180.0 * (1 + draw(uf)) for _ in range(draw(st.integers(1, 4)))]
